@@ -74,14 +74,31 @@ impl ValidatorAsync for CheckLuaValidator {
 
                 let context = Arc::clone(&context);
                 let file_path = file_path.clone();
+                #[cfg(feature = "verif")]
+                crate::verif_trace::emit(
+                    "task_spawn",
+                    serde_json::json!({"v": "check-lua", "file": file_path, "idx": block_idx,
+                        "line": block_with_context.block.start_tag_position_range.start().line}),
+                );
                 tasks.spawn(async move {
                     let file_blocks = &context.blocks[&file_path];
                     let block_with_context = &file_blocks.blocks_with_context[block_idx];
                     let script_path = &block_with_context.block.attributes["check-lua"];
                     let content = block_content(block_with_context, &file_blocks.file_content)?;
 
+                    #[cfg(feature = "verif")]
+                    crate::verif_trace::emit(
+                        "task_call",
+                        serde_json::json!({"v": "check-lua", "file": file_path, "idx": block_idx}),
+                    );
                     let result =
                         run_lua_script(script_path, &file_path, block_with_context, content).await;
+                    #[cfg(feature = "verif")]
+                    crate::verif_trace::emit(
+                        "task_ret",
+                        serde_json::json!({"v": "check-lua", "file": file_path, "idx": block_idx,
+                            "class": match &result { Ok(None) => "nil", Ok(Some(_)) => "str", Err(_) => "err" }}),
+                    );
 
                     match result.context(format!(
                         "check-lua script error in {}:{} at line {}",
@@ -107,7 +124,20 @@ impl ValidatorAsync for CheckLuaValidator {
                 });
             }
         }
+        #[cfg(feature = "verif")]
+        crate::verif_trace::emit(
+            "tasks_spawned",
+            serde_json::json!({"v": "check-lua", "n": tasks.len()}),
+        );
         while let Some(task_result) = tasks.join_next().await {
+            #[cfg(feature = "verif")]
+            crate::verif_trace::emit(
+                "task_join",
+                serde_json::json!({"v": "check-lua", "class": match &task_result {
+                    Ok(Ok(None)) => "nil", Ok(Ok(Some(_))) => "str", Ok(Err(_)) => "err", Err(_) => "panic" },
+                    "file": match &task_result { Ok(Ok(Some((f, _)))) => Some(f.clone()), _ => None },
+                    "line": match &task_result { Ok(Ok(Some((_, v)))) => Some(v.range.start.line), _ => None }}),
+            );
             match task_result.context("check-lua task failed")? {
                 Ok(None) => continue,
                 Ok(Some((file_path, violation))) => {
